@@ -334,7 +334,10 @@ class Gen:
         for p in UNSIGNED:
             if r.chance(1, 3):
                 n = self.fresh("S")
-                s.add(TypeDef(n, "set", prim=p, values=[("c0", "0"), ("cTop", str(PSIZE[p] * 8 - 1))]))
+                # every other set declares its choices in neither name nor bit order (visiting follows the schema)
+                top = str(PSIZE[p] * 8 - 1)
+                s.add(TypeDef(n, "set", prim=p, values=[("c0", "0"), ("cTop", top)] if len(self.pool) % 2 == 0 else
+                              [("zLast", top), ("c0", "0"), ("Mid", "3")]))
                 self.pool.append(n)
         # a constant type
         if r.chance(1, 2):
